@@ -199,6 +199,13 @@ impl ReadXml for Maybe<Candidate> {
                             {
                                 reject_policy = true;
                             }
+                            // `<reject></reject>` is the same element as `<reject/>`
+                            (ResolveResult::Bound(XNM), Event::Start(tag))
+                                if tag.local_name().as_ref() == b"reject" =>
+                            {
+                                _ = reader.read_to_end(tag.to_end().name())?;
+                                reject_policy = true;
+                            }
                             (_, Event::Comment(_)) => continue,
                             (_, Event::End(tag)) if tag == end => break,
                             (ns, event) => {
@@ -276,6 +283,13 @@ impl ReadXml for Maybe<Installed> {
                             (ResolveResult::Bound(XNM), Event::Empty(tag))
                                 if tag.local_name().as_ref() == b"reject" =>
                             {
+                                default_reject = true;
+                            }
+                            // `<reject></reject>` is the same element as `<reject/>`
+                            (ResolveResult::Bound(XNM), Event::Start(tag))
+                                if tag.local_name().as_ref() == b"reject" =>
+                            {
+                                _ = reader.read_to_end(tag.to_end().name())?;
                                 default_reject = true;
                             }
                             (_, Event::Comment(_)) => continue,
@@ -379,6 +393,14 @@ impl<'i> BorrowedReadXml<'i> for Term<'i> {
                                 if tag.local_name().as_ref() == b"accept" && !accept =>
                             {
                                 tracing::trace!(?tag);
+                                accept = true;
+                            }
+                            // `<accept></accept>` is the same element as `<accept/>`
+                            (ResolveResult::Bound(XNM), Event::Start(tag))
+                                if tag.local_name().as_ref() == b"accept" && !accept =>
+                            {
+                                tracing::trace!(?tag);
+                                _ = reader.read_to_end(tag.to_end().name())?;
                                 accept = true;
                             }
                             (_, Event::Comment(_)) => continue,
